@@ -152,6 +152,13 @@ impl Prop for C07Prop {
             _ => return Ok(()),
         };
         let want = decr::eval(&e, &p);
+        if want == RD::Err {
+            // "Division or remainder by zero and results outside the Decimal range yield Err": a panic is not an Err
+            let o = eval(sc, Ev::Dec, &case.input, &case.ph);
+            if let Outcome::Panic(_, _) = o {
+                return Err(Failure::new("decimal/panic-instead-of-err", "Err", o.show()));
+            }
+        }
         let o = match eval_normal(sc, Ev::Dec, &case.input, &case.ph) {
             Some(o) => o,
             None => return Ok(()),
